@@ -2,3 +2,6 @@
 U = ('\U0001f600', '\udc80', '\ud800', 'a\udcffb', '\U0010ffff', 'caf\xe9 \u20ac \U0001f600')
 V = (b'bytes', 'str', b'\xff', '\xff')
 def f(a: 'ann', *, k: 'kann' = 'd\xe9f') -> 'r\u20ac': return ...
+# bytes inside containers the compiler folds into constants (frozenset / tuple members keep their kind)
+def g(m, t):
+    return m in {b'OPTIONS', b'GET', 'get'} or t in (b'x', 'x', (b'y', 'y')) or m in {b'only'}
